@@ -6,32 +6,42 @@ from graphgen import *
 class C03(PropCheck):
     pid = 'C03'
     header = ('From Coq Require Import List String ZArith Bool.\n'
-              'From Elfi Require Import Base.Harness Graph.Net Graph.Denote.\nImport ListNotations.\n')
-    case_type = 'Denote.case'
-    preds = (('Denote.agree', 'agree'), ('Denote.ok', 'ok'), ('Denote.ok_strict', 'ok'))
+              'From Elfi Require Import Base.Harness Graph.Net Graph.Denote Graph.Declared.\nImport ListNotations.\n')
+    case_type = 'Declared.dcase'
+    preds = (('Declared.dagree', 'agree'), ('Declared.dok', 'ok'), ('Declared.dok_strict', 'ok'))
+    build_targets = ('Graph/Declared.vo',)
     chunk = 120
     rule = ('random DAGs (2-9 nodes; a quarter ABC-shaped prior->simulator->summary->discrepancy chains, some with a plain Operation spliced in, which must be rejected) built through elfi.Constant/Operation/Prior/Simulator/Summary/Discrepancy with recording '
-            'operations, mixed positional and named edges, partial observations, uses_meta flags; random requested outputs '
+            'operations, mixed positional and named edges, partial observations, uses_meta flags; a third of the graphs attach (part of) '
+            'their edges after the nodes exist through explicit model.add_edge(parent, child, param) calls in shuffled order: '
+            'explicit positions (0 attached after higher ones, sparse positions, positions continuing after constructor parents), '
+            'named parameters and the implicit next-free-position form, with children created before the parents attached to them '
+            '(every child\'s declared positions distinct); the DECLARED (parent, child, param) list is recorded and the check is '
+            'evaluated on the declared graph, which the introspected source net must carry exactly; random requested outputs '
             '(incl. None = all, twin names) and with_values subsets; malformed stream: cycles, both _output and _operation, twin '
             'name clash, observed data depending on a stochastic node; non-trivial = run succeeded with >= 2 operation calls or '
             'was rejected for a malformed graph; distinct by (spec, outputs, with_values)')
     trusted = ('networkx DiGraph as insertion-ordered adjacency lists (node/edge iteration order as introspected from the real source_net)',
-               'recording operations/distributions of harness/graphgen.py stand for arbitrary user callables')
+               'recording operations/distributions of harness/graphgen.py stand for arbitrary user callables',
+               'the declared (parent, child, param) list is the harness\'s own record of the constructor arguments and add_edge calls it issued')
 
     def generate(self):
-        n = 260 if self.tier == 'quick' else 4000
+        n = 340 if self.tier == 'quick' else 5200
         r = self.rng
         for i in range(n):
             abc = r.random() < 0.25
             mal = None
-            if abc:
+            attach = None
+            if not abc and r.random() < 0.4:
+                spec, attach = gen_explicit_spec(r)
+            elif abc:
                 spec, spliced = gen_abc_spec(r)
                 if spliced:
                     mal = 'spliced_op'
             else:
                 spec = gen_spec(r)
             names = [s['name'] for s in spec]
-            if not abc and r.random() < 0.18:
+            if not abc and attach is None and r.random() < 0.18:
                 mal = r.choice(['cycle', 'both', 'clash', 'stoch_obs', 'stoch_twin'])
             outs_mode = r.choice(['all', 'some', 'some', 'one', 'twin'])
             if outs_mode == 'all':
@@ -51,17 +61,55 @@ class C03(PropCheck):
                 for nm in r.sample(cands, min(len(cands), r.randint(1, 3))):
                     wv[nm] = 5000 + names.index(nm)
             self.bump('outputs=' + outs_mode)
-            self.bump('shape=%s' % ('abc' if abc else 'random'))
+            self.bump('shape=%s' % ('abc' if abc else 'random' if attach is None else 'explicit_add_edge'))
+            if attach is not None:
+                self._bump_attach(spec, attach)
             self.bump('malformed=%s' % mal)
             self.bump('with_values=%d' % len(wv))
-            yield dict(spec=spec, outputs=outputs, with_values=wv, malformed=mal, seed=r.randrange(2 ** 31),
-                       batch_size=r.choice([1, 3]))
+            case = dict(spec=spec, outputs=outputs, with_values=wv, malformed=mal, seed=r.randrange(2 ** 31),
+                        batch_size=r.choice([1, 3]))
+            if attach is not None:
+                case['attach'] = attach
+            yield case
+
+    def _bump_attach(self, spec, attach):
+        """histogram of the explicit-attachment dimensions"""
+        self.bump('attach_calls=%s' % (len(attach) if len(attach) < 4 else '4+'))
+        created = [s['name'] for s in spec]
+        seen = {}
+        zero_last = sparse = late_parent = low_pos_younger = False
+        for p, c, passed, decl in attach:
+            if isinstance(decl, int):
+                prev = seen.setdefault(c, [])
+                if decl == 0 and prev:
+                    zero_last = True
+                if any(decl < q and created.index(p) > created.index(pp) for pp, q in prev):
+                    low_pos_younger = True
+                prev.append((p, decl))
+            if created.index(p) > created.index(c):
+                late_parent = True
+        for s in spec:
+            pos = sorted(k for _, k in s['parents'])
+            if pos != list(range(len(pos))):
+                sparse = True
+        self.bump('attach_position0_after_higher=%s' % zero_last)
+        self.bump('attach_lower_position_to_younger_parent=%s' % low_pos_younger)
+        self.bump('attach_sparse_positions=%s' % sparse)
+        self.bump('attach_parent_created_after_child=%s' % late_parent)
+        self.bump('attach_implicit_next=%s' % any(a[2] is None for a in attach))
+        self.bump('attach_named=%s' % any(isinstance(a[3], str) for a in attach))
+        self.bump('attach_mixed_with_ctor_parents=%s' % any(s.get('ctor') and len(s['parents']) > s['ctor'] for s in spec))
 
     def _build(self, case, rec):
         import elfi
         spec = case['spec']
-        m, refs = build_model(spec, rec)
+        attach = case.get('attach')
+        if attach is not None:
+            m, refs = build_model_explicit(spec, attach, rec)
+        else:
+            m, refs = build_model(spec, rec)
         mal = case.get('malformed')
+        extra = []
         names = [s['name'] for s in spec]
         if mal == 'cycle':
             # edge from the last node to an ancestor of it (or a self-dependency through two nodes)
@@ -69,6 +117,7 @@ class C03(PropCheck):
             if ops:
                 s = ops[-1]
                 m.add_edge(s['name'], s['parents'][0][0], 'kw_back')
+                extra.append((s['name'], s['parents'][0][0], 'kw_back'))
         elif mal == 'both':
             ops = [s for s in spec if s['kind'] != 'const']
             if ops:
@@ -81,10 +130,14 @@ class C03(PropCheck):
             pri = elfi.Prior(RecDist(rec, 'pp'), name='pp', model=m)
             sm = elfi.Summary(rec_op(rec, 'ss'), pri, name='ss', model=m)
             elfi.Discrepancy(rec_op(rec, 'dd'), sm, name='dd', model=m)
+            extra += [('pp', 'ss', 0), ('ss', 'dd', 0)]
         elif mal == 'stoch_twin':
             sim = elfi.Simulator(rec_op(rec, 'uu'), name='uu', model=m)   # never observed
             sm = elfi.Summary(rec_op(rec, 'ss'), sim, name='ss', model=m)
             elfi.Discrepancy(rec_op(rec, 'dd'), sm, name='dd', model=m)
+            extra += [('uu', 'ss', 0), ('ss', 'dd', 0)]
+        # what was declared: constructor argument positions, explicit add_edge parameters, named parameters
+        self._declared = declared_edges(spec, attach or (), extra)
         return m
 
     def run_impl(self, case):
@@ -93,6 +146,8 @@ class C03(PropCheck):
         snet = snet_of_model(m)
         outputs = case['outputs']
         all_names = list(m.source_net.nodes())
+        declared = decl_in_net_order(self._declared, all_names)
+        net_edges = [(u, v, d['param']) for u, v, d in m.source_net.edges(data=True)]
         rec.reset()
         try:
             res = m.generate(case['batch_size'], outputs, with_values=dict(case['with_values']) or None, seed=case['seed'])
@@ -104,7 +159,8 @@ class C03(PropCheck):
             impl = dict(ok=False, error='%s: %s' % (type(e).__name__, str(e)[:200]))
             impl_coq = 'ImplErr'
         coq_outputs = clist([cstr(x) for x in (all_names if outputs is None else outputs)])
-        return dict(impl=impl, snet=snet, impl_coq=impl_coq, coq_outputs=coq_outputs)
+        return dict(impl=impl, snet=snet, impl_coq=impl_coq, coq_outputs=coq_outputs, declared=[list(e) for e in declared],
+                    net_edges=[list(e) for e in net_edges])
 
     def py_check(self, case, out):
         if out['impl'].get('bad'):
@@ -116,17 +172,17 @@ class C03(PropCheck):
             return None
         if not out['impl']['ok'] and not case.get('malformed'):
             return None
-        return json.dumps([case['spec'], case['outputs'], case['with_values'], case['malformed']], sort_keys=True)
+        return json.dumps([case['spec'], case.get('attach'), case['outputs'], case['with_values'], case['malformed']], sort_keys=True)
 
     def classify(self, case, out, clause):
-        if clause == 'Denote.ok_strict':
+        if clause == 'Declared.dok_strict':
             return 'unobserved-stochastic-observable-twin'
         return None
 
     def to_coq(self, case, out):
         wv = clist(['(%s, (VConst %s))' % (cstr(k), cz(v)) for k, v in case['with_values'].items()])
-        return '{| k_src := %s; k_outputs := %s; k_with := %s; k_impl := %s |}' % (
-            out['snet'], out['coq_outputs'], wv, out['impl_coq'])
+        return '{| d_case := {| k_src := %s; k_outputs := %s; k_with := %s; k_impl := %s |}; d_decl := %s |}' % (
+            out['snet'], out['coq_outputs'], wv, out['impl_coq'], cedges(out['declared']))
 
 
 if __name__ == '__main__':
